@@ -5,9 +5,13 @@ package main
 // a path.
 
 import (
+	"fmt"
 	"go/constant"
 	"go/token"
 	"go/types"
+	"os"
+	"sort"
+	"strings"
 
 	"golang.org/x/tools/go/ssa"
 )
@@ -32,6 +36,10 @@ type IG struct {
 	// GuardIf: the tests that modelDefers added for defers registered in one arm
 	// of an if (node, branch on which the deferred call runs)
 	GuardIf [][2]int
+	// Via: see viaInfo
+	Via map[Edge]viaInfo
+	// flatStack: the merge blocks flattenCase is expanding (cycle detection)
+	flatStack map[*ssa.BasicBlock]bool
 	Copies map[int][]int
 	// Funcs: Fn, then the helpers spliced into the graph (see inl.go).
 	Funcs   []*ssa.Function
@@ -115,6 +123,7 @@ func newIG(m *Module, fn *ssa.Function, diverging map[*ssa.Function]bool) *IG {
 	g.splices = splices
 	g.CondOv = map[int]ssa.Value{}
 	g.Groups = map[int]*[2][]Edge{}
+	g.Via = map[Edge]viaInfo{}
 	g.Copies = map[int][]int{}
 	if len(splices) > 0 {
 		g.computePred()
@@ -668,6 +677,13 @@ func (g *IG) threadBoolPhisOnce() {
 				grp = &[2][]Edge{}
 				g.Groups[orig] = grp
 			}
+			// the edges that enter b: those of its predecessors, and the edges an
+			// earlier threading of a predecessor block has put in their place
+			type inEdge struct {
+				e   Edge
+				idx int // operand index of the predecessor the edge stands for
+			}
+			var ins []inEdge
 			used := map[*ssa.BasicBlock]int{}
 			for i, p := range b.Preds {
 				// the edge of p that enters b for the i-th time
@@ -684,56 +700,110 @@ func (g *IG) threadBoolPhisOnce() {
 						continue
 					}
 					seen++
-					if k >= len(g.Succ[pn]) || g.Succ[pn][k] != g.First[b] {
-						continue // already redirected
+					if k < len(g.Succ[pn]) && g.Succ[pn][k] == g.First[b] {
+						ins = append(ins, inEdge{Edge{pn, k}, i})
 					}
-					v := phi.Edges[i]
-					decided, val := false, false
-					if nilK == nil {
-						val, decided = constBool(v)
-					} else if vc, isC := v.(*ssa.Const); isC {
-						if vc.Value == nil {
-							decided, val = true, nilOp == token.EQL
-						}
-					} else if g.M.nonNilErrorGlobal(v) {
-						decided, val = true, nilOp == token.NEQ
-					}
-					// the arithmetic stays on the path (a private copy)
-					tailN, tailK := pn, k
-					for _, cn := range chain {
-						n := len(g.Ins)
-						g.Ins = append(g.Ins, g.Ins[cn])
-						g.Succ = append(g.Succ, []int{-1})
-						g.Copies[cn] = append(g.Copies[cn], n)
-						g.Succ[tailN][tailK] = n
-						tailN, tailK = n, 0
-					}
-					if decided {
-						if val {
-							g.Succ[tailN][tailK] = tTrue
-							grp[0] = append(grp[0], Edge{tailN, tailK})
-						} else {
-							g.Succ[tailN][tailK] = tFalse
-							grp[1] = append(grp[1], Edge{tailN, tailK})
-						}
-						continue
-					}
-					n := len(g.Ins)
-					g.Ins = append(g.Ins, ifi)
-					g.Succ = append(g.Succ, []int{tTrue, tFalse})
-					if nilK == nil {
-						g.CondOv[n] = v
-					} else {
-						g.CondOv[n] = &ssa.BinOp{Op: nilOp, X: v, Y: nilK}
-					}
-					g.Copies[orig] = append(g.Copies[orig], n)
-					g.Succ[tailN][tailK] = n
-					grp[0] = append(grp[0], Edge{n, 0})
-					grp[1] = append(grp[1], Edge{n, 1})
 				}
+				if want == 0 {
+					for e, via := range g.Via {
+						if via.blk == p && e.K < len(g.Succ[e.From]) && g.Succ[e.From][e.K] == g.First[b] && e.From != pn {
+							ins = append(ins, inEdge{e, i})
+						}
+					}
+				}
+			}
+			sort.Slice(ins, func(x, y int) bool {
+				if ins[x].e.From != ins[y].e.From {
+					return ins[x].e.From < ins[y].e.From
+				}
+				return ins[x].e.K < ins[y].e.K
+			})
+			for _, ie := range ins {
+				pn, k := ie.e.From, ie.e.K
+				if g.Succ[pn][k] != g.First[b] {
+					continue // already redirected
+				}
+				v := phi.Edges[ie.idx]
+				// on an edge made by threading the predecessor, its merged value is
+				// the operand that threading was done for
+				if via, ok := g.Via[ie.e]; ok && via.phi != nil && v == ssa.Value(via.phi) {
+					v = via.val
+				}
+				decided, val := false, false
+				if nilK == nil {
+					val, decided = constBool(v)
+				} else if vc, isC := v.(*ssa.Const); isC {
+					if vc.Value == nil {
+						decided, val = true, nilOp == token.EQL
+					}
+				} else if g.M.nonNilErrorGlobal(v) {
+					decided, val = true, nilOp == token.NEQ
+				}
+				if !decided {
+					// a test on the way to this edge has already answered it
+					known := g.factsNoExpand(pn)
+					if f, ok := g.EdgeFact(pn, k); ok {
+						known = append(known, f)
+					}
+					for _, f := range known {
+						if f.X != v {
+							continue
+						}
+						if nilK == nil {
+							if f.Y == nil {
+								decided, val = true, f.Op == token.EQL
+							}
+						} else if kc, isC := f.Y.(*ssa.Const); isC && kc.Value == nil && nillable(kc.Type()) && (f.Op == token.EQL || f.Op == token.NEQ) {
+							decided, val = true, f.Op == nilOp
+						}
+					}
+				}
+				// the arithmetic stays on the path (a private copy)
+				tailN, tailK := pn, k
+				for _, cn := range chain {
+					n := len(g.Ins)
+					g.Ins = append(g.Ins, g.Ins[cn])
+					g.Succ = append(g.Succ, []int{-1})
+					g.Copies[cn] = append(g.Copies[cn], n)
+					g.Succ[tailN][tailK] = n
+					tailN, tailK = n, 0
+				}
+				if decided {
+					if val {
+						g.Succ[tailN][tailK] = tTrue
+						grp[0] = append(grp[0], Edge{tailN, tailK})
+					} else {
+						g.Succ[tailN][tailK] = tFalse
+						grp[1] = append(grp[1], Edge{tailN, tailK})
+					}
+					g.Via[Edge{tailN, tailK}] = viaInfo{b, phi, v}
+					continue
+				}
+				n := len(g.Ins)
+				g.Ins = append(g.Ins, ifi)
+				g.Succ = append(g.Succ, []int{tTrue, tFalse})
+				if nilK == nil {
+					g.CondOv[n] = v
+				} else {
+					g.CondOv[n] = &ssa.BinOp{Op: nilOp, X: v, Y: nilK}
+				}
+				g.Copies[orig] = append(g.Copies[orig], n)
+				g.Succ[tailN][tailK] = n
+				grp[0] = append(grp[0], Edge{n, 0})
+				grp[1] = append(grp[1], Edge{n, 1})
+				g.Via[Edge{n, 0}] = viaInfo{b, phi, v}
+				g.Via[Edge{n, 1}] = viaInfo{b, phi, v}
 			}
 		}
 	}
+}
+
+// viaInfo: the edge was made by threading block blk for a predecessor on which
+// blk's merged value phi is val.
+type viaInfo struct {
+	blk *ssa.BasicBlock
+	phi *ssa.Phi
+	val ssa.Value
 }
 
 // nillable: values of t can be compared with nil.
@@ -1129,7 +1199,7 @@ func (g *IG) FactsAt(target int) []Fact {
 	// a threaded test: all the edges that stand for one of its branches
 	for orig, grp := range g.Groups {
 		for k := 0; k < 2; k++ {
-			if len(grp[k]) < 2 {
+			if len(grp[k]) < 1 {
 				continue
 			}
 			cut := map[Edge]bool{}
@@ -1454,6 +1524,9 @@ type RetCase struct {
 	Vals []ssa.Value // returned values in this case
 	At   int         // node whose dominating facts hold in this case
 	Edge *Edge       // incoming edge taken in this case (nil: the return itself)
+	// Req: what the tests passed between At and the return say, with merged
+	// values replaced by the operands of this case (used to drop impossible cases)
+	Req []Fact
 }
 
 func (g *IG) ReturnCases() []RetCase {
@@ -1468,6 +1541,14 @@ func (g *IG) ReturnCases() []RetCase {
 			vals[i] = g.unspill(rn, r)
 		}
 		out = append(out, g.flattenCase(RetCase{Ret: rn, Vals: vals, At: rn}, ret.Block(), 0)...)
+	}
+	if d := os.Getenv("FFC_DEBUG_CASES"); d != "" && strings.Contains(g.Fn.String(), d) {
+		for _, rc := range out {
+			fmt.Fprintf(os.Stderr, "CASE %s ret=%s at=%s edge=%v vals=%v\n", g.Fn.Name(), g.posOf(rc.Ret), g.posOf(rc.At), rc.Edge, rc.Vals)
+			for _, f := range g.CaseFacts(rc) {
+				fmt.Fprintf(os.Stderr, "     fact %v %v %v\n", f.X, f.Op, f.Y)
+			}
+		}
 	}
 	return out
 }
@@ -1500,7 +1581,7 @@ func (g *IG) unspill(n int, r ssa.Value) ssa.Value {
 }
 
 func (g *IG) flattenCase(c RetCase, blk *ssa.BasicBlock, depth int) []RetCase {
-	if depth > 3 {
+	if depth > 12 {
 		return []RetCase{c}
 	}
 	// a value returned by a spliced multi-return helper: one case per return of
@@ -1562,28 +1643,235 @@ func (g *IG) flattenCase(c RetCase, blk *ssa.BasicBlock, depth int) []RetCase {
 		}
 	}
 	if !hasPhi {
+		// a value merged further up (the variable of a loop that the return
+		// follows): its cases are those of the merge
+		for _, v := range c.Vals {
+			if phi, ok := v.(*ssa.Phi); ok && phi.Block() != blk && !g.flatStack[phi.Block()] && phi.Block().Dominates(blk) {
+				if _, inGraph := g.Idx[phi]; inGraph {
+					// (not when the case already says whether it is nil: `if err == nil
+					// { ... return x, err }` returns a nil err whatever it merges)
+					if nillable(phi.Type()) {
+						if isNil, nonNil := g.caseNil(c, v); isNil || nonNil {
+							continue
+						}
+					}
+					return g.flattenCase(c, phi.Block(), depth+1)
+				}
+			}
+		}
 		return []RetCase{c}
 	}
+	if g.flatStack == nil {
+		g.flatStack = map[*ssa.BasicBlock]bool{}
+	}
+	if g.flatStack[blk] {
+		return []RetCase{c}
+	}
+	g.flatStack[blk] = true
+	defer func() { delete(g.flatStack, blk) }()
 	var out []RetCase
 	pe := g.predEdges(blk)
 	for i := range blk.Preds {
 		nc := RetCase{Ret: c.Ret, Vals: make([]ssa.Value, len(c.Vals)), At: pe[i].From}
 		e := pe[i]
 		nc.Edge = &e
+		carried, fresh := false, false
 		for j, v := range c.Vals {
 			if phi, ok := v.(*ssa.Phi); ok && phi.Block() == blk {
 				nc.Vals[j] = phi.Edges[i]
+				// around a loop the variable keeps the value it has: one of the
+				// cases of the merge that is being expanded further out
+				if ep, isPhi := phi.Edges[i].(*ssa.Phi); isPhi && g.flatStack[ep.Block()] {
+					carried = true
+				} else {
+					fresh = true
+				}
 			} else {
 				nc.Vals[j] = v
 			}
 		}
+		if carried && !fresh {
+			continue
+		}
+		// what later tests said about the merged values must be possible for the
+		// operands of this edge
+		for _, r := range c.Req {
+			for j, v := range c.Vals {
+				_ = j
+				if phi, ok := v.(*ssa.Phi); ok && phi.Block() == blk {
+					if r.X == v {
+						r.X = phi.Edges[i]
+					}
+					if r.Y != nil && r.Y == v {
+						r.Y = phi.Edges[i]
+					}
+				}
+			}
+			nc.Req = append(nc.Req, r)
+		}
+		if f, ok := g.EdgeFact(e.From, e.K); ok {
+			nc.Req = append(nc.Req, f)
+		}
+		if g.infeasible(nc) {
+			continue
+		}
 		out = append(out, g.flattenCase(nc, blk.Preds[i], depth+1)...)
+		if len(out) > 64 {
+			break
+		}
+	}
+	if len(out) == 0 {
+		return []RetCase{c}
 	}
 	return out
 }
 
 // A return case consists of the paths that pass node At (and leave it through
 // Edge when that is set) and go on to the Return.
+
+// infeasible: a requirement of the case contradicts what is known where the
+// case's values are determined.
+func (g *IG) infeasible(c RetCase) bool {
+	if len(c.Req) == 0 {
+		return false
+	}
+	var known []Fact
+	loaded := false
+	for _, r := range c.Req {
+		if r.Y == nil {
+			if cb, isC := constBool(r.X); isC && cb != (r.Op == token.EQL) {
+				return true
+			}
+		} else if k, isK := r.Y.(*ssa.Const); isK {
+			if xc, isC := r.X.(*ssa.Const); isC {
+				if k.Value == nil && xc.Value == nil && nillable(k.Type()) {
+					if r.Op == token.NEQ {
+						return true
+					}
+				} else if dec, val := foldConstCmp(r.Op, xc, k); dec && !val {
+					return true
+				}
+			} else if k.Value == nil && nillable(k.Type()) && r.Op == token.EQL && g.M.nonNilErrorGlobal(r.X) {
+				return true
+			}
+		}
+		if !loaded {
+			known = g.CaseFacts(RetCase{At: c.At, Edge: c.Edge})
+			loaded = true
+		}
+		for _, k := range known {
+			if k.X != r.X || k.Op != negate(r.Op) {
+				continue
+			}
+			if k.Y == nil && r.Y == nil {
+				return true
+			}
+			kc, ok1 := k.Y.(*ssa.Const)
+			rc, ok2 := r.Y.(*ssa.Const)
+			if ok1 && ok2 && (sameConst(kc, rc) || kc.Value == nil && rc.Value == nil) {
+				return true
+			}
+		}
+	}
+	return false
+}
+
+// caseNil: in return case c the value v is known to be nil / known not to be nil
+// (a nil constant, an error variable that is never nil, or a test on the way).
+func (g *IG) caseNil(c RetCase, v ssa.Value) (isNil, nonNil bool) {
+	if cs, ok := v.(*ssa.Const); ok && cs.Value == nil && nillable(cs.Type()) {
+		return true, false
+	}
+	if g.M.nonNilErrorGlobal(v) {
+		return false, true
+	}
+	for _, f := range g.CaseFacts(c) {
+		if isNilFact(f, token.EQL, func(x ssa.Value) bool { return x == v }) {
+			isNil = true
+		}
+		if isNilFact(f, token.NEQ, func(x ssa.Value) bool { return x == v }) {
+			nonNil = true
+		}
+	}
+	return
+}
+
+// phiAt resolves a merged value where it is used: an incoming edge is excluded
+// when a test that every path to node at has passed contradicts the operand a
+// phi of the same block has on that edge (`size` after `if wrapped { err = E }
+// else { size = rounded }` and a test of err == nil is the rounded size). It
+// returns nil unless exactly one edge remains.
+func (g *IG) phiAt(phi *ssa.Phi, at int) ssa.Value {
+	b := phi.Block()
+	if _, inGraph := g.Idx[phi]; !inGraph || at >= len(g.Ins) || g.Ins[at].Block() == nil || !b.Dominates(g.Ins[at].Block()) {
+		return nil
+	}
+	facts := g.FactsAt(at)
+	feasible := make([]bool, len(phi.Edges))
+	for i := range feasible {
+		feasible[i] = true
+	}
+	for _, in := range b.Instrs {
+		sib, ok := in.(*ssa.Phi)
+		if !ok {
+			break
+		}
+		for _, f := range facts {
+			if f.X != ssa.Value(sib) {
+				continue
+			}
+			for i, o := range sib.Edges {
+				if i >= len(feasible) {
+					break
+				}
+				switch {
+				case f.Y == nil:
+					if cb, isC := constBool(o); isC && cb != (f.Op == token.EQL) {
+						feasible[i] = false
+					}
+				default:
+					k, isK := f.Y.(*ssa.Const)
+					if !isK {
+						continue
+					}
+					if oc, isC := o.(*ssa.Const); isC {
+						if k.Value == nil && oc.Value == nil && nillable(k.Type()) {
+							if f.Op == token.NEQ {
+								feasible[i] = false
+							}
+						} else if dec, val := foldConstCmp(f.Op, oc, k); dec && !val {
+							feasible[i] = false
+						}
+					} else if k.Value == nil && nillable(k.Type()) && f.Op == token.EQL && g.M.nonNilErrorGlobal(o) {
+						feasible[i] = false
+					}
+				}
+			}
+		}
+	}
+	var res ssa.Value
+	n := 0
+	for i, ok := range feasible {
+		if ok {
+			res = phi.Edges[i]
+			n++
+		}
+	}
+	if n != 1 {
+		return nil
+	}
+	return res
+}
+
+// substAt is a Polyizer.Subst that resolves merged values at node at.
+func (g *IG) substAt(at int) func(ssa.Value) ssa.Value {
+	return func(v ssa.Value) ssa.Value {
+		if phi, ok := v.(*ssa.Phi); ok {
+			return g.phiAt(phi, at)
+		}
+		return nil
+	}
+}
 
 // CaseFacts returns the facts that hold in a return case.
 func (g *IG) CaseFacts(c RetCase) []Fact {
